@@ -9,7 +9,7 @@ META = {
     'level': 'proof', 'functions': [],
     'trusted_base': ['RVC executor + exact normal form + z3 for the geometry obligations (real arithmetic; abs / max / double->Index truncation by contract)', 'CBMC 6.11 C++ front end, SAT back end, IEEE-754 encoding', 'stub classes standing for nblistgrid.h / Eigen / NDimVector (member names as in the header)'],
     'assumptions': ['|r . norm| < 2^62 (beyond that the float-to-index conversion in getCell is undefined, like every (Index)floor(x))'],
-    'not_decided': ['the COMPOSITION of the geometry lemmas (count, reciprocal normals, projection < 1, floor, getCell congruence, neighbour sets) into "every pair within the cutoff is examined" is a paper argument over machine-checked pieces', 'exactly-once delivery through PairList::FindPair (std::map)',
+    'not_decided': ['three-body grid neighbour sets beyond the enumerated counts (the pair grid is decided for all counts)', 'the COMPOSITION of the geometry lemmas (count, reciprocal normals, projection < 1, floor, getCell congruence, neighbour sets) into "every pair within the cutoff is examined" is a paper argument over machine-checked pieces', 'exactly-once delivery through PairList::FindPair (std::map)',
                     'the simple O(N^2) lists, the three-body enumeration, exclusions (std::list / std::map)', 'in the CBMC runs cross/normalize inside InitializeGrid are nondeterministic stubs (the geometry is decided separately on the AST, real arithmetic)'],
 }
 TARGETS = {'NBListGrid': 'csg/src/libcsg/nblistgrid.cc', 'NBListGrid_3Body': 'csg/src/libcsg/nblistgrid_3body.cc'}
@@ -159,6 +159,143 @@ def job_geometry(cls, seed):
     return obs
 
 
+def job_neighbours_sym(cls, seed, first=None):
+    """neighbour-cell sets for ALL cell counts: the part of InitializeGrid after the grid allocation is executed from the AST with symbolic cell counts
+    (per direction: N = 1, N = 2, or any N >= 3) and the body of the triple loop over the cells is executed once for an arbitrary cell (per-iteration contract);
+    the 27 offset iterations inside are concrete.  Complements the CBMC runs, which enumerate the counts."""
+    import sympy as sp, z3, itertools as it
+    from vlib import rvc
+    from vlib.rvc import D, Mx, Exec, Ret, SInt
+    rvc.reset()
+    rel = TARGETS[cls]
+    fns = rvc.functions(rvc.ast(rel, cls + '::InitializeGrid'))
+    if 'InitializeGrid' not in fns:
+        raise core.Undecided('front end: %s::InitializeGrid not found' % cls)
+    fn = fns['InitializeGrid'][0]
+    F = cls + '::InitializeGrid'
+    stmts = rvc.body_of(fn)['inner']
+    start = [i for i, st in enumerate(stmts) if st['kind'] == 'DeclStmt' and any(v.get('name') == 'a1' for v in st.get('inner', []))]
+    loop = [i for i, st in enumerate(stmts) if st['kind'] == 'ForStmt']
+    if len(start) != 1 or len(loop) != 1 or loop[0] < start[0]:
+        raise core.Undecided('%s: the offset declarations / the loop over the cells were not found' % F)
+    outer = stmts[loop[0]]
+    names = []
+    node = outer
+    for _ in range(3):                       # a, b, c loops
+        names.append(node['inner'][0]['inner'][0]['name'])
+        body = node['inner'][4]
+        inner = [c for c in body.get('inner', []) if c.get('kind') == 'ForStmt'] if body.get('kind') == 'CompoundStmt' else ([body] if body.get('kind') == 'ForStmt' else [])
+        if _ < 2:
+            if len(inner) != 1:
+                raise core.Undecided('%s: three nested loops over the cells expected' % F)
+            node = inner[0]
+    cellbody = node['inner'][4]
+    mfs = [{'name': F, 'file': rel, 'ast_nodes': rvc.node_count(fn), 'route': 'RVC (AST; symbolic cell counts, loop over the cells closed by a per-iteration contract)'}]
+    obs = []
+    # per direction: regime and position class of the cell
+    CLASSES = {'1': ['only'], '2': ['low', 'high'], 'ge3': ['low', 'mid', 'high']}
+    def coord(reg, cl, delta, d):
+        """label of the cell coordinate (x + delta) mod N for a cell of class cl (x = a - N in [0,N))"""
+        if reg == '1':
+            return 'x'
+        if reg == '2':
+            return {('low', 0): '0', ('low', 1): '1', ('low', -1): '1', ('high', 0): '1', ('high', 1): '0', ('high', -1): '0'}[(cl, delta)]
+        if cl == 'low':
+            return {0: '0', 1: '1', -1: 'N-1'}[delta]
+        if cl == 'high':
+            return {0: 'N-1', 1: '0', -1: 'N-2'}[delta]
+        return {0: 'x', 1: 'x+1', -1: 'x-1'}[delta]
+    # the labels of one class are pairwise different integers for every N >= 3 (z3, linear)
+    N, x = z3.Ints('N x')
+    val = {'0': z3.IntVal(0), '1': z3.IntVal(1), 'N-1': N - 1, 'N-2': N - 2, 'x': x, 'x+1': x + 1, 'x-1': x - 1}
+    okd = True
+    for cl, base in (('low', [N >= 3]), ('high', [N >= 3]), ('mid', [N >= 3, x >= 1, x <= N - 2])):
+        labs = [coord('ge3', cl, dl, 0) for dl in (-1, 0, 1)]
+        for p, q in it.combinations(labs, 2):
+            sol = z3.Solver(); sol.add(*base); sol.add(val[p] == val[q])
+            okd = okd and sol.check() == z3.unsat
+        for p in labs:
+            sol = z3.Solver(); sol.add(*base); sol.add(z3.Or(val[p] < 0, val[p] >= N))
+            okd = okd and sol.check() == z3.unsat
+    o = Ob('C03.%s.neighbours/labels%s' % (cls, '' if first is None else '.a-' + first), F, 'for N >= 3 the coordinates x-1, x, x+1 (mod N) of an edge or interior cell are three different cells inside [0,N)', 'RVC', 'z3 (linear integer)', core.PROVED if okd else core.REFUTED, 0, '')
+    o['functions'] = mfs; obs.append(o)
+    nbad = 0
+    for regs in it.product(('1', '2', 'ge3'), repeat=3):
+        if first is not None and regs[0] != first:
+            continue
+        for cls3 in it.product(*[CLASSES[r] for r in regs]):
+            Ns = [1 if r == '1' else (2 if r == '2' else sp.Symbol('N%s' % 'abc'[k], integer=True, positive=True)) for k, r in enumerate(regs)]
+            rvc.CTX.base = [z3.Int('N%s' % 'abc'[k]) >= 3 for k, r in enumerate(regs) if r == 'ge3']
+            P = rvc.Paths(); P.start()
+            loopv = [sp.Symbol('cell_%s' % 'abc'[k], integer=True) for k in range(3)]
+            neigh = []
+            class Cell(dict):          # compared by identity (one object per cell key), like the address of a grid cell
+                def __init__(s_, key): dict.__init__(s_); s_.key = key; s_['neighbours_'] = s_
+                def push_back(s_, c): neigh.append(c.key)
+            cells = {}
+            def grid_call(ia, ib, ic):
+                key = []
+                for k, e in enumerate((ia, ib, ic)):
+                    ee = sp.expand(SInt.ex(e) if isinstance(e, (int, SInt)) else e)
+                    # the index expression is (loop variable + delta) % N  (or the loop variable itself % N)
+                    if isinstance(ee, sp.Mod):
+                        num, den = ee.args
+                    else:
+                        num, den = ee, None
+                    dl = sp.expand(num - loopv[k])
+                    if den is not None:        # sympy may have shifted the dividend by the modulus
+                        for cand in (dl, sp.expand(dl - den), sp.expand(dl + den)):
+                            if cand.is_Integer and int(cand) in (-1, 0, 1):
+                                dl = cand
+                                break
+                    if not (dl.is_Integer and int(dl) in (-1, 0, 1)) or (den is not None and sp.expand(den - Ns[k]) != 0 and regs[k] != '1'):
+                        if regs[k] == '1' and ee.is_Integer and int(ee) == 0:
+                            key.append('x'); continue
+                        raise rvc.Unsupported('grid index %s is not (cell index + offset) %% N' % ee)
+                    key.append(coord(regs[k], cls3[k], int(dl), k))
+                key = tuple(key)
+                return cells.setdefault(key, Cell(key))
+            class Grid:
+                def op_call(s_, op, b): return NotImplemented
+            def mod(a, b):
+                return None
+            this = {'__class__': cls, 'box_Na_': Ns[0] if isinstance(Ns[0], int) else SInt(Ns[0]), 'box_Nb_': Ns[1] if isinstance(Ns[1], int) else SInt(Ns[1]), 'box_Nc_': Ns[2] if isinstance(Ns[2], int) else SInt(Ns[2]), 'grid_': 'GRID'}
+            def index_hook(obj, idx):
+                return grid_call(*idx)
+            class GridM:
+                def index_ref(s_, idx): return grid_call(*idx)
+            this['grid_'] = GridM()
+            # the modulo of a symbolic non-negative dividend stays symbolic (sp.Mod); N = 1: x % 1 == 0
+            rvc.CTX.base += [z3.Int('cell_%s' % 'abc'[k]) >= (1 if r == '1' else (2 if r == '2' else z3.Int('N%s' % 'abc'[k]))) for k, r in enumerate(regs)]
+            cb = {'decide': P.decide, 'push_back': lambda o_, c: o_.push_back(c), 'getCell': lambda o_, a, b, c: grid_call(a, b, c)}
+            ex = Exec({}, cb, fns, this)
+            try:
+                for st in stmts[start[0]:loop[0]]:
+                    ex.stmt(st)
+                for k in range(3):
+                    ex.env[names[k]] = SInt(loopv[k])
+                ex.stmt(cellbody)
+            except rvc.Unsupported as e:
+                raise
+            me = tuple(coord(regs[k], cls3[k], 0, k) for k in range(3))
+            exp = set()
+            for dl in it.product((-1, 0, 1), repeat=3):
+                key = tuple(coord(regs[k], cls3[k], dl[k], k) if regs[k] != '1' else 'x' for k in range(3))
+                if regs[0] == '2' or regs[1] == '2' or regs[2] == '2' or True:
+                    exp.add(key)
+            exp.discard(me)
+            good = len(neigh) == len(set(neigh)) and set(neigh) == exp and me not in neigh
+            if not good:
+                nbad += 1
+                o = Ob('C03.%s.neighbours/%s.%s' % (cls, '-'.join(regs), '-'.join(cls3)), F, 'an arbitrary cell gets exactly the cells at periodic offset {-1,0,1}^3 other than itself as neighbours, each once', 'RVC', 'symbolic execution', core.REFUTED, 0,
+                       'neighbours %s expected %s' % (sorted(neigh), sorted(exp)), witness={'regime': regs, 'cell_class': cls3, 'listed': str(sorted(neigh))[:400], 'expected': str(sorted(exp))[:400]})
+                o['functions'] = mfs; obs.append(o)
+    o = Ob('C03.%s.neighbours/all-counts%s' % (cls, '' if first is None else '.a-' + first), F, 'for every combination of cell counts (per direction N = 1, N = 2 or any N >= 3) and every cell (edge or interior), the cell gets exactly the cells at periodic offset {-1,0,1}^3 other than itself as neighbours, each once (216 regime x position cases over the three jobs, symbolic N)',
+           'RVC', 'symbolic execution + z3', core.PROVED if nbad == 0 else core.REFUTED, 0, '%d failing cases' % nbad, witness=None if nbad == 0 else {'failing_cases': nbad})
+    o['functions'] = mfs; obs.append(o)
+    return obs
+
+
 def collect(obs):
     seen = set(f['name'] for f in META['functions'])
     for o in obs:
@@ -185,6 +322,7 @@ def run(tier, seed, only=None):
     jobs += [(job_initgrid, ('NBListGrid', a, b, c)) for a, b, c in confs]
     jobs += [(job_initgrid, ('NBListGrid_3Body', a, b, c)) for a, b, c in confs3]
     jobs += [(job_geometry, (cls, seed)) for cls in TARGETS]
+    jobs += [(job_neighbours_sym, ('NBListGrid', seed, r)) for r in ('1', '2', 'ge3')]
     if only:
         jobs = [j for j in jobs if re.search(only, j[0].__name__ + str(j[1]))]
     obs = core.pmap(jobs)
